@@ -778,27 +778,27 @@ def _exec_churn(part, case):
             first = '%d repeats' % REPEATS
             if r.exc is None and r.err is not None:
                 key = 'out-of-string-space-on-repeat' if r.err == 14 else 'error-on-repeat'
-                part.violation('churn/%s/%s/%s' % (fk, key, cls),
+                part.violation('churn/%s/%s' % (fk, key),
                                '%s repeated %d times: error %d after %s iterations' % (
                                    detail, REPEATS, r.err, s.get_variable('J%')), case)
                 return
         if r.exc is not None:
-            part.violation('churn/%s/host-exception/%s/%s' % (fk, H.exc_key(r.exc), cls), '%s: %r' % (detail, r.exc), case)
+            part.violation('churn/%s/host-exception/%s' % (fk, H.exc_key(r.exc)), '%s: %r' % (detail, r.exc), case)
             return
         r = H.run(s, b'LOCATE 1,1:' + CHURN)
         part.traces += 300
         if r.exc is not None:
-            part.violation('churn/%s/host-exception-in-later-garbage-collection/%s/%s' % (fk, H.exc_key(r.exc), cls),
+            part.violation('churn/%s/host-exception-in-later-garbage-collection/%s' % (fk, H.exc_key(r.exc)),
                            '%s, then %s: %r' % (detail, CHURN.decode(), r.exc), case)
             return
         if r.err is not None:
-            part.violation('churn/%s/error-in-later-string-allocation/%s' % (fk, cls),
+            part.violation('churn/%s/error-in-later-string-allocation' % fk,
                            '%s, then %s: error %d' % (detail, CHURN.decode(), r.err), case)
             return
         # one more call after the collection, then look at everything
         r = H.run(s, stmt.encode())
         if r.exc is not None:
-            part.violation('churn/%s/host-exception/%s/%s' % (fk, H.exc_key(r.exc), cls), '%s after churn: %r' % (detail, r.exc), case)
+            part.violation('churn/%s/host-exception/%s' % (fk, H.exc_key(r.exc)), '%s after churn: %r' % (detail, r.exc), case)
             return
         got = s.get_variable(res)
         if errs:
@@ -815,10 +815,10 @@ def _exec_churn(part, case):
                            '%s after %s and churn: err %r, %s=%r, reference %r' % (
                                detail, first, r.err, res, _short([got])[0], exp if errs == set() else sorted(errs)), case)
         if res != 'A$' and s.get_variable('A$') != a:
-            part.violation('churn/%s/operand-lost-after-garbage-collection/%s' % (fk, cls), '%s: A$ is now %r' % (
+            part.violation('churn/%s/operand-lost-after-garbage-collection' % fk, '%s: A$ is now %r' % (
                 detail, _short([s.get_variable('A$')])[0]), case)
         if s.get_variable('B$') != b:
-            part.violation('churn/%s/operand-lost-after-garbage-collection/%s' % (fk, cls), '%s: B$ is now %r' % (
+            part.violation('churn/%s/operand-lost-after-garbage-collection' % fk, '%s: B$ is now %r' % (
                 detail, _short([s.get_variable('B$')])[0]), case)
         part.classes.add('churn:%s:%s:%s' % (f, cls, 'err' if errs else 'ok'))
         part.outcome('err' if errs else 'ok')
